@@ -24,7 +24,11 @@
 //!  * `continuation`: a continuation history applied in lock-step to the handler that never stopped
 //!    and to the handler recovered at the final message boundary agrees on every rcode, snapshot
 //!    and serial;
-//!  * `real-stop-vs-row-cut`: (b) and (a) recover the same zone for the same k.
+//!  * (b) and (a) are compared for the same k (`real_stop_equals_row_cut`); a disagreement is NOT a verdict:
+//!    it means the row-cut model does not describe this tree's commit granularity (found by the
+//!    property-preserving seeded change C14-n1, which wraps the rows of one update in a transaction) —
+//!    counted `info_row_cut_model_differs_from_real_stop/*`, the model's findings for that window class
+//!    in that history are withdrawn, the real stop is judged directly by the clauses above.
 //! Signature = crash-window class {schema-setup, inside-initial-dump, inside-update-rows,
 //! after-rows-before-soa-row, message-boundary} x symptom {recovery-error, recovery-panic,
 //! missing-apex, half-applied, content-new-serial-old, content-old-serial-new,
@@ -359,6 +363,7 @@ fn check_history(w: &Work, rep: &mut Reporter, zone0: &Zone, fixed: Option<&[Upd
     rep.count("histories");
     rep.add("messages", rec.msgs.len() as u64);
     rep.add("messages_acked_noerror", rec.acks.iter().filter(|a| **a == NOERROR).count() as u64);
+    rep.add("messages_acked_noerror_with_ds_rr", rec.msgs.iter().zip(rec.acks.iter()).filter(|(m, a)| **a == NOERROR && m.upd.iter().any(|r| r.rtype == T_DS)).count() as u64);
     let jn = *rec.rows.last().unwrap();
     let upto = |m: usize| m; // history prefix needed for a cut in message m's window
 
@@ -438,13 +443,20 @@ fn check_history(w: &Work, rep: &mut Reporter, zone0: &Zone, fixed: Option<&[Upd
                 for f in fs {
                     out.push((f, case_json(&rec, m, "real-stop", k, &[])));
                 }
-                // (a) must model reality
+                // (a) is a MODEL of where a stop can leave the journal (every row insert its own commit). Where a
+                // real stop recovers something else, the model does not describe this tree (e.g. the rows of one
+                // update were made one transaction): the real stop has been judged by the statement above and
+                // stands on its own; the disagreement is recorded, and what the model predicted for that window
+                // class in this history is withdrawn — a state the process cannot be left in is no witness.
                 if let (Recovered::Ok(s, _), Some(Some(c))) = (&r, cut_snaps.get(k as usize)) {
                     if s.rrs != c.rrs || s.serial != c.serial {
-                        out.push((
-                            Finding { rule: "real-stop-vs-row-cut".into(), sig: format!("{class}:differs"), k, m, expected: json!({"row_cut": c.lines(), "serial": c.serial}), observed: json!({"real_stop": s.lines(), "serial": s.serial}) },
-                            case_json(&rec, rec.msgs.len(), "real-stop", k, &[]),
-                        ));
+                        rep.count(&format!("info_row_cut_model_differs_from_real_stop/{class}"));
+                        rep.note("row_cut_model_differs_from_real_stop", json!({"window": class, "k": k, "row_cut_serial": c.serial, "real_stop_serial": s.serial, "meaning": "row-cut verdicts for this window class are withdrawn in the histories where a real stop disagreed; the real stops are judged directly"}));
+                        let before = out.len();
+                        out.retain(|(f, case)| !(case["kind"] == "row-cut" && f.sig.starts_with(&format!("{class}:"))));
+                        rep.add("row_cut_findings_withdrawn_model_differs", (before - out.len()) as u64);
+                    } else {
+                        rep.count("real_stop_equals_row_cut");
                     }
                 }
             }
@@ -568,6 +580,7 @@ fn main() {
         rep.must(&format!("real_stop/{class}"), 1);
     }
     rep.must("row_cuts", 3000);
+    rep.must("messages_acked_noerror_with_ds_rr", 100);
     rep.must("continuation_steps", 300);
     rep.must("schema_states", 6);
 
